@@ -249,7 +249,23 @@ def _child_consistency(rec):
         xl.update(max_rank=rec["rank"], err_threshold=0.0, T_el=rec["T_el"])
     es(mol, P0=D.clone(), dm_prop="XL-BOMD", xl_bomd_params=xl)
     ent = mol.Electronic_entropy if torch.is_tensor(mol.Electronic_entropy) else torch.zeros_like(E0)
+    solo = None
+    if rec["rank"] and len(rec["batch"]) > 1:
+        # the same molecules one at a time (no zero padding): the thermal (finite T_el) XL evaluation of a molecule
+        # must not depend on its batch mates, whatever the electronic temperature
+        solo = {"dE": 0.0, "dF": 0.0}
+        for j in range(len(rec["batch"])):
+            nat = int((sp_np[j] > 0).sum())
+            spj = {"method": rec["method"], "scf_eps": 1e-11, "scf_converger": [1]}
+            mj = Molecule(Constants(), spj, torch.as_tensor(xyz_np[j : j + 1, :nat]), torch.as_tensor(sp_np[j : j + 1, :nat], dtype=torch.int64))
+            mj.verbose = False
+            ej = Electronic_Structure(spj)
+            ej(mj)
+            ej(mj, P0=mj.dm.clone(), dm_prop="XL-BOMD", xl_bomd_params=dict(xl))
+            solo["dE"] = max(solo["dE"], float((mj.Etot[0] - mol.Etot[j]).abs()))
+            solo["dF"] = max(solo["dF"], float((mj.force[0] - mol.force[j, :nat]).abs().max()))
     return {
+        "solo": solo,
         "dE": float((mol.Etot - E0).abs().max()),
         "dE_with_entropy": float((mol.Etot + ent - E0).abs().max()),
         "dF": float((mol.force - F0).abs().max()),
@@ -267,14 +283,28 @@ def _consistency(record, root):
         return core.Result.make(record, failures, stats, sig=None, nontrivial=False)
     r = payload["ok"]
     tag = f"{record['batch']} {record['method']} k={record['k']} rank={record['rank']} T_el={record.get('T_el')}"
-    stats["max"]["consistency_dE"] = r["dE"]
-    stats["max"]["consistency_dF"] = r["dF"]
-    if r["dE"] > tol["consistency_dE"]:
+    # above 1500 K the thermal occupations legitimately move the XL energy away from the zero-temperature SCF
+    # one (measured 1e-6 eV at 5000 K, 1e-3 eV at 8000 K): there only the batch-independence form is decided
+    cold = not record.get("T_el") or record["T_el"] <= 1500
+    if cold:
+        stats["max"]["consistency_dE"] = r["dE"]
+        stats["max"]["consistency_dF"] = r["dF"]
+    else:
+        stats["max"].pop("consistency_dE", None)
+        stats["max"].pop("consistency_dF", None)
+        stats["probes"]["hot_electronic_temperature"] = 1
+    if cold and r["dE"] > tol["consistency_dE"]:
         failures.append(core.fail("xl-energy-differs-from-scf", f"{tag}: with the auxiliary density equal to the converged density the XL energy differs from the SCF energy by {r['dE']:.3e} eV"))
-    if r["dF"] > tol["consistency_dF"]:
+    if cold and r["dF"] > tol["consistency_dF"]:
         failures.append(core.fail("xl-force-differs-from-scf", f"{tag}: XL forces differ from SCF forces by {r['dF']:.3e} eV/A at P = D"))
+    if r.get("solo"):
+        stats["max"]["consistency_solo_dE"] = r["solo"]["dE"]
+        stats["max"]["consistency_solo_dF"] = r["solo"]["dF"]
+        stats["probes"]["batch_vs_solo_xl"] = 1
+        if r["solo"]["dE"] > tol["consistency_solo_dE"] or r["solo"]["dF"] > tol["consistency_solo_dF"]:
+            failures.append(core.fail("xl-depends-on-batch-mates", f"{tag}: XL energy/forces at P = D of a molecule in the (zero-padded) batch differ from those of the same molecule alone by {r['solo']['dE']:.3e} eV / {r['solo']['dF']:.3e} eV/A"))
     sig = ["consistency", record["batch"], record["method"], record["k"], record["rank"]]
-    return core.Result.make(record, failures, stats, sig=sig, nontrivial=True, sample={"case": record, "result": r}, digest_=core.digest({k: round(v, 9) for k, v in r.items()}))
+    return core.Result.make(record, failures, stats, sig=sig, nontrivial=True, sample={"case": record, "result": r}, digest_=core.digest({k: round(v, 9) for k, v in r.items() if isinstance(v, float)}))
 
 
 # ----------------------------------------------------------------------------------------------
@@ -398,11 +428,11 @@ class C09(core.Check):
                 {
                     "i": i,
                     "layer": "consistency",
-                    "batch": rng.choice([["h2o"], ["nh3"], ["h2co"], ["ch4", "h2o"], ["hf", "hf"], ["c2h4"]]),
+                    "batch": rng.choice([["h2o"], ["nh3"], ["h2co"], ["ch4", "h2o"], ["hf", "hf"], ["c2h4"], ["c2h4", "h2o"], ["h2co", "h2"], ["ch4", "nh3", "hf"]]),
                     "method": rng.choice(["AM1", "PM3", "MNDO"]),
                     "k": rng.randint(3, 9),
                     "rank": rank,
-                    "T_el": rng.choice([300, 1500]) if rank else None,
+                    "T_el": rng.choice([300, 1500, 1500, 5000, 8000]) if rank else None,
                     "rotate": rng.randrange(1 << 30),
                 }
             )
